@@ -120,3 +120,26 @@ fn c03_opts_short_ts_window() {
     assert!(m.wsize == crate::window_size::detect_win_multiplicator(w, 1460, 5, true, &IpVersion::V4));
 }
 
+
+/// the link MTU is reported for a SYN and only for a SYN: a SYN+ACK carrying an MSS option yields a server
+/// signature and no MTU (option area fixed to one MSS option, MSS value and the ACK bit symbolic)
+#[kani::proof]
+#[kani::unwind(10)]
+#[kani::stub(crate::uptime::get_unix_time_ms, stub_now)]
+#[kani::stub(alloc::fmt::format, stub_format)]
+fn c03_mtu_only_for_syn() {
+    let (m1, m2): (u8, u8) = (kani::any(), kani::any());
+    let mss = u16::from_be_bytes([m1, m2]);
+    kani::assume(mss >= 1 && mss <= 65000);
+    let mut buf = syn_with_options([2, 4, m1, m2]);
+    let ack: bool = kani::any();
+    if ack { buf[13] = 0x12; buf[8] = 1; } // SYN+ACK with a non-zero acknowledgment number
+    let p = run(&buf).unwrap();
+    if ack {
+        assert!(p.tcp_response.is_some() && p.tcp_request.is_none());
+        assert!(p.mtu.is_none());
+    } else {
+        assert!(p.tcp_request.is_some() && p.tcp_response.is_none());
+        assert!(p.mtu.is_some());
+    }
+}
